@@ -313,6 +313,20 @@ def scale_oplists(pid, seed):
                     {"k": "remap_uri", "i": 1, "m": m130[:128]},
                     {"k": "rewire", "i": 1, "m": [[f"p{i:03d}", f"https://rewired.example/{i:03d}/"] for i in range(40)] + [[f"q{i:03d}", f"https://unknown.example/{i:03d}/"] for i in range(95)]},
                     {"k": "rewire", "i": "last", "m": [["p001", "https://rewired.example/000/"], ["p000", "https://again.example/"]]}])
+    if pid in QUERY_PROPS or pid == "C05":
+        # records that carry a PATTERN (wave 11, C03-w11-M2): the pattern is documentation for writers, no query consults it --
+        # identifiers that do and do not conform, through the constructor and through add_record
+        for delim in (":", "::"):
+            go = {"p": "GO", "u": "http://purl.obolibrary.org/obo/GO_", "ps": ["go"], "us": ["https://identifiers.org/GO:"], "pat": r"^\d{7}$"}
+            chebi = {"p": "CHEBI", "u": "http://purl.obolibrary.org/obo/CHEBI_", "ps": [], "us": [], "pat": r"^\d+$"}
+            free = {"p": "free", "u": "http://free.example/", "ps": [], "us": [], "pat": None}
+            ex = [q + delim + i for q in ("GO", "go", "CHEBI", "free") for i in ("0032571", "32571", "", "abc", "GO" + delim + "1")] + \
+                 [u + i for u in (go["u"], go["us"][0], chebi["u"], free["u"]) for i in ("0032571", "32571", "", "abc")]
+            out.append([{"k": "new", "recs": [go, chebi, free], "delim": delim, "extra": ex},
+                        {"k": "new", "recs": [free], "delim": delim, "extra": ex},
+                        {"k": "add", "i": 2, "rec": go, "cs": True, "mg": False, "via": "record", "extra": ex},
+                        {"k": "add", "i": 2, "rec": dict(chebi, ps=["chebi"]), "cs": True, "mg": True, "via": "record", "extra": ex},
+                        {"k": "probe", "is": [1, 2], "extra": ex}])
     if pid in QUERY_PROPS or pid in ("C05", "C09", "C10"):
         # minimal merges (wave 10, C01-w10-M1): a merging add / a chained record that contributes exactly ONE new name -- the
         # empty string or an ordinary one, on either side -- to a record with or without synonyms on that side
@@ -973,7 +987,7 @@ def hook_part(seed, tier="quick", model=False, pid="C07"):
             {"p": "OBO", "u": "http://purl.obolibrary.org/obo/", "ps": [], "us": [], "pat": None},
             {"p": "", "u": "http://default.example/", "ps": ["dflt"], "us": [], "pat": None}]
     calls, metas, convs = [], [], []
-    classes = {cls.__name__: cls for cls in (Digits, Banana, Upper, GoOnly, Weird)}
+    classes = {cls.__name__: cls for cls in (curies.Converter, Digits, Banana, Upper, GoOnly, Weird)}       # the base class: the identity hook
     for cls in classes.values():
         for delim in (":", "/", "::"):
             for how in ("constructor", "incremental"):
@@ -1007,6 +1021,14 @@ def hook_part(seed, tier="quick", model=False, pid="C07"):
                         for suf in impl.keys_for(m, True, True):
                             sm, pm, rn = impl.SUFFIX_MODES[suf]
                             a[m + suf] = impl.call_out(I, f, c, x, sm, pm, rn)
+                    # the derived operations once more with warnings turned into errors (python -W error): what a derived operation
+                    # answers must not depend on the interpreter's warning policy (the primitive parsers are asked with return_none=True and
+                    # emit nothing)
+                    import warnings
+                    for m in ("is_uri", "is_curie", "parse", "compress_or_standardize", "expand_or_standardize"):
+                        with warnings.catch_warnings():
+                            warnings.simplefilter("error")
+                            a[m + "#w"] = impl.call_out(I, impl.STR_CALLS[m], c, x, False, False, True)
                     # the graph of the hook, observed by asking the subclass's method directly: every canonical prefix x every
                     # suffix of x after an occurrence of the delimiter
                     h, pos = [], x.find(delim)
@@ -1036,7 +1058,7 @@ def hook_part(seed, tier="quick", model=False, pid="C07"):
             lines.append(f"VIOLATION property={pid} replay={path}   # clause {'/'.join(clause)} on a Converter subclass overriding standardize_identifier ({m['hook']}), input {m['x']!r}")
     mc = hook_model(tier) if model else None
     return {"lines": lines, "violations": violations,
-            "coverage": {"subclasses": ["Digits (rejects)", "Banana (rewrites)", "Upper (both)", "GoOnly (depends on the canonical prefix)",
+            "coverage": {"subclasses": ["Converter itself (identity hook)", "Digits (rejects)", "Banana (rewrites)", "Upper (both)", "GoOnly (depends on the canonical prefix)",
                                         "Weird (answers '', an identifier containing the delimiter, a URI)"],
                          "delimiters": [":", "/", "::"], "built": ["constructor", "incrementally on the subclass (add_prefix, merge)"],
                          "rows": len(calls), "answers": sum(len(c["a"]) for c in calls), "hook_graph_entries": sum(len(c["h"]) for c in calls),
